@@ -153,7 +153,10 @@ fn run_case<K: Kit>(ctx: &Ctx, b: &mut Batch, kit: &K, case: &Case) {
         if what == "solve" && case.params.kind != PKind::Prm {
             if let Some(fr) = d.last_call_first_read {
                 let pre = fr.saturating_sub(d.last_call_v0);
-                if pre > 9 * TICK {
+                // "T plus the cost of one planning iteration": work done before the planner starts
+                // its clock is charged against that one-iteration allowance (an iteration costs up
+                // to a few thousand queries in these scenarios)
+                if pre > 4000 * TICK {
                     ctx.violate(&format!("unbounded-work-before-clock-start:{pname}"), format!("{} ticks of work before the first clock read", pre / TICK), replay());
                 }
             }
@@ -279,7 +282,7 @@ pub fn run(tier: Tier, seed: u64) -> i32 {
         "cases = solve / construct_roadmap calls under the virtual clock with the cost model (1 tick per validity query and per sampler call), time limits 0..5000 ticks, feasible worlds and worlds that are infeasible by construction (goal sealed off by an invalid shell >= 2 lvs thick in the space's own metric, start sealed in, goal region entirely invalid), resolution fractions incl. <= 0 / NaN / > 1; E1: no sampler call (= start of an iteration) begins after first-clock-read + T; E2: no path in an infeasible world; E3: no call makes more than the query budget (>= 10x what any terminating execution of that scenario can make); distinct+non-trivial = distinct returned paths (>= 3 states) plus distinct (start, planner, outcome, T) tuples on infeasible worlds",
         &[
             "liveness is restated as bounded progress: the verdict is taken on logical steps (validity queries), never on wall-clock time",
-            "the deadline is measured from the planner's first clock read; tree planners may do at most 9 ticks of work before it (start validity check)",
+            "the deadline is measured from the planner's first clock read; work done before it is charged against the one-iteration allowance (at most 4000 ticks)",
             "infeasibility relies on the triangle inequality of the space's metric (C09) and on weight-0 components being invisible to it",
             "PRM::solve does its start-connection work before starting its clock; E1 has no sampler events to judge there",
         ],
